@@ -285,8 +285,9 @@ class SelectorWorld:
         if obj is None or m["retired"]:
             return
         if op.get("warm") and m.get("retired_for_warm") and not op.get("expect"):
-            # the state left by a failed/interrupted fit is unspecified (DESIGN 5.4)
-            self.count("warm_after_failed_fit_skipped")
+            # the state left by a failed/interrupted fit is unspecified (DESIGN 5.4); after a
+            # reported length inconsistency a continuation only repeats that report
+            self.count("warm_after_inconsistent_state_skipped" if m.get("retired_reason") else "warm_after_failed_fit_skipped")
             return
         info = SEL[m["cls"]]
         X = self.heap.get(op["X"])
@@ -346,6 +347,7 @@ class SelectorWorld:
             m["retired_for_warm"] = True
             return
         m["retired_for_warm"] = False
+        m["retired_reason"] = None
         self.count("fits_ok")
         if warm:
             self.count("warm_fits_ok")
@@ -358,6 +360,10 @@ class SelectorWorld:
             ns, idx = -1, []
         self.count("selections", max(0, ns - n_before))
         self.log.add("FIT", name, warm, "ok", ns, idx)
+        for attr in ("X_selected_", "hausdorff_", "pi_", "hausdorff_at_select_"):
+            v = getattr(obj, attr, None)
+            if isinstance(v, np.ndarray):
+                self.log.add(attr, v)  # exact bytes
         for w in rec.warnings:
             self.log.add("W", w[0], w[1][:60])
         if rec.active:
@@ -464,6 +470,10 @@ class SelectorWorld:
                 stopped=bool(stopped),
                 deficit_equals_initial=bool(ns - len(idx) == started_with),
             )
+            # the public state is now inconsistent (selected_idx_ shorter than n_selected_):
+            # continuing from it would only report consequences of the same defect again
+            m["retired_for_warm"] = True
+            m["retired_reason"] = "len_idx_ne_n_selected"
         if ns != N:
             if not (ns < N and stopped and p.get("score_threshold") is not None):
                 V("size_ne_requested", f"n_selected_={ns}, n_to_select implies {N}, threshold stop={stopped}")
